@@ -13,7 +13,7 @@ EXPLANATION = (
     "for the no-newline marker and for /dev/null; (R4) the hunk writer's loop ends only when both sides are exhausted; (R6) the walk itself: the closest-match helper is "
     "given the unwritten remainders of the two sides, every pair it returns was compared equal on its own parameters (or is the "
     "full remaining length of both), and '-' / '+' are written in front of lines of the remove / add side; (R7) the line numbers of a hunk header survive write-then-parse: the writer's integer "
-    "term composed with the parser's is the identity for every header diff(1) writes, empty sides included. Not decided: "
+    "term composed with the parser's is the identity for every header diff(1) writes, empty sides included. (R11) the two object names of an index line are stored together, as they stand. Not decided: "
     "structural equality parse(write(p)) = p (e.g. start lines of empty sides are written as 0) and the byte-level fixed point."
 )
 LEVEL_NOTE = "Undecided: value-level round trip (line numbers of empty sides, exact interleaving chosen by find_closest_match)."
